@@ -69,8 +69,11 @@ class Engine(CallMixin):
                 import dataclasses
                 base_params = dict(c.params)
                 for i, ov in enumerate(c.variants):
+                    ov = dict(ov)
+                    never = bool(ov.pop("$never_returns", False))   # declared: this variant has only raising paths
                     cv = dataclasses.replace(c, params={**base_params, **ov}, variants=[])
                     cv.virtual = getattr(c, "virtual", False)
+                    cv.never_returns = never
                     self.cur_variant = f"#v{i}"
                     self._verify_body(cv, fi)
                 self.cur_variant = ""
@@ -174,6 +177,8 @@ class Engine(CallMixin):
         if n_paths == 0:
             raise Unsupported(f"{fi.key}{getattr(self, 'cur_variant', '')}: no path reaches the end of the body (everything after some "
                               f"statement is unreachable under the contracts in force): the contract would hold vacuously")
+        if normal_paths > 0 and getattr(c, "never_returns", False):
+            raise Unsupported(f"{fi.key}{getattr(self, 'cur_variant', '')}: declared never to return, but a path returns normally")
         if normal_paths == 0 and not getattr(c, "never_returns", False) and c.ensures is not None:
             raise Unsupported(f"{fi.key}{getattr(self, 'cur_variant', '')}: no path returns normally, the ensures clauses would hold vacuously")
         self.paths += n_paths
